@@ -98,39 +98,75 @@ def classify(r):
     return "user"
 
 
-def run_cbmc(argv, cwd, out_json, timeout, mem_gb):
-    rc, _so, se, dt = run(argv, cwd, timeout, mem_gb, stdout_path=out_json)
+import re as _re
+
+_HDR = _re.compile(r'^(\S.*) function (\S+)$')
+_RES = _re.compile(r'^\[(.+?)\] (?:line (\d+) )?(.*): (SUCCESS|FAILURE|UNKNOWN|ERROR)$')
+
+
+def parse_text_results(txt):
+    """Plain-text UI (the JSON/XML UIs crash in CBMC 6.11 while serialising some C++ counterexample
+    values: 'Invariant check failed ... expr.type() == typet{}').  Returns a list shaped like the
+    JSON result list."""
+    results = []
+    i = txt.find("** Results:")
+    if i < 0:
+        return None
+    cur_file, cur_fn = "?", "?"
+    for line in txt[i:].splitlines():
+        m = _RES.match(line)
+        if m:
+            results.append({"property": m.group(1), "description": m.group(3), "status": m.group(4),
+                            "sourceLocation": {"file": cur_file, "function": cur_fn, "line": m.group(2) or "?"}})
+            continue
+        h = _HDR.match(line)
+        if h:
+            cur_file, cur_fn = h.group(1), h.group(2)
+    return results
+
+
+def run_cbmc(argv, cwd, out_path, timeout, mem_gb):
+    rc, _so, se, dt = run(argv, cwd, timeout, mem_gb, stdout_path=out_path)
+    with open(out_path, "r", errors="replace") as f:
+        txt = f.read()
     if rc not in (0, 10):
-        # 6 = usage/parse error, others: crash / OOM
-        tail = ""
-        try:
-            with open(out_json, "r", errors="replace") as f:
-                txt = f.read()
-            for key in ('"messageType": "ERROR"',):
-                k = txt.rfind(key)
-                if k >= 0:
-                    tail = txt[max(0, k - 400):k + 60].replace("\n", " ")
-        except OSError:
-            pass
-        raise Undecided("cbmc rc=%d (%s) %s %s" % (rc, " ".join(argv[:3]), se.strip()[-300:], tail[-400:]))
-    results, status, msgs = parse_json_ui(out_json)
+        tail = " ".join(l for l in (txt[-3000:] + se[-1500:]).splitlines() if ("rror" in l or "nvariant" in l or "Reason" in l or "Condition" in l))
+        raise Undecided("cbmc rc=%d (%s) %s" % (rc, " ".join(argv[:3]), tail[-500:]))
+    results = parse_text_results(txt)
     if results is None:
         raise Undecided("cbmc produced no result list (rc=%d)" % rc)
+    msgs = [("WARNING", l) for l in txt.splitlines() if "ignoring" in l]
     return results, dt, msgs
 
 
-def trace_values(r):
-    """From a failed property with a trace: ordered list of (lhs, value, function, line)."""
+_ASSIGN = _re.compile(r'^  (\S.*?)=(.*?)(?: \(([01 ?]+)\))?$')
+_STATE = _re.compile(r'^State \d+ (?:file (\S+) )?(?:function (\S+) )?(?:line (\d+) )?')
+
+
+def trace_values_text(txt, prop_id):
+    """Ordered list of (lhs, value, binary, function, line) from the plain-text trace of prop_id."""
+    key = "Trace for %s:" % prop_id
+    i = txt.find(key)
+    if i < 0:
+        return None
+    j = txt.find("\nTrace for ", i + 10)
+    k = txt.find("\n** ", i + 10)
+    end = min(x for x in (j, k, len(txt)) if x > 0)
     vals = []
-    for s in r.get("trace", []) or []:
-        if s.get("stepType") != "assignment" or s.get("hidden"):
+    fn, ln = None, None
+    for line in txt[i:end].splitlines():
+        st = _STATE.match(line)
+        if st:
+            fn, ln = st.group(2), st.group(3)
             continue
-        v = s.get("value", {}) or {}
-        data = v.get("data")
-        if data is None and "binary" not in v:
-            continue
-        sl = s.get("sourceLocation", {}) or {}
-        vals.append((s.get("lhs"), data, v.get("binary"), sl.get("function"), sl.get("line")))
+        m = _ASSIGN.match(line)
+        if m:
+            b = m.group(3)
+            if b is not None:
+                b = b.replace(" ", "")
+                if "?" in b:
+                    b = None
+            vals.append((m.group(1), m.group(2), b, fn, ln))
     return vals
 
 
